@@ -67,6 +67,22 @@ def sliceStep (be : Backend) (sc : Scalar S) (isZero : S → Bool) [Inhabited S]
   if k = 0 then none
   else some (mkBody be isZero (sc.div b.fps (sc.ofNat k)) (everyNth k b.data) (everyNth k b.conf) (some (everyNth k b.missing)))
 
+/-- one bound of Python's `slice(a, b, step).indices(n)` for a positive step: absent = the default end, negative = counted from the end, clamped to `[0, n]` -/
+def pyBound (x : Option Int) (dflt n : Nat) : Nat :=
+  match x with
+  | none => dflt
+  | some v => if v < 0 then (v + n).toNat else min v.toNat n
+
+/-- `range(*slice(a, b, step).indices(n))` for `step ≥ 1` -/
+def pySliceIndexes (a b : Option Int) (step n : Nat) : List Nat :=
+  let s := pyBound a 0 n
+  let e := pyBound b n n
+  (List.range ((e - s + step - 1) / step)).map fun j => s + j * step
+
+/-- `body[a:b:step]` (`PoseBody.__getitem__` with a slice): the frames Python's slice names; a non-positive step is refused (torch cannot, the others would reverse) -/
+def sliceFrames (be : Backend) (isZero : S → Bool) [Inhabited S] (a b : Option Int) (step : Nat) (body : PBody S) : Option (PBody S) :=
+  if step = 0 then none else selectFrames be isZero (pySliceIndexes a b step (numFrames body)) body
+
 /-- `zero_filled()`: missing coordinates become exactly 0 (`filled(0)` / `where(mask, x, 0)`) -/
 def zeroFill4 (sc : Scalar S) (data : A4 S) (missing : A4 Bool) : A4 S :=
   List.zipWith (List.zipWith (List.zipWith (List.zipWith fun x m => if m then sc.zero else x))) data missing
